@@ -1294,7 +1294,14 @@ func (vc *VC) ghostAssign(st *State, env *Env, target, value ast.Expr) {
 
 // siteGhost runs "ghost before|after call <callee>" statements and site assertions of the function under verification.
 func (vc *VC) siteGhost(st *State, ci *calleeInfo, instr ssa.Instruction, before bool) {
-	vc.siteHooks(st, ci.key, instr, before)
+	key := ci.key
+	if cl, ok := instr.(ssa.CallInstruction); ok {
+		// the same naming as the after-call hooks (calls through function values are "dynamic:<name>")
+		if k := vc.calleeKeyOf(st, cl.Common()); strings.HasPrefix(k, "dynamic:") {
+			vc.siteHooks(st, k, instr, before)
+		}
+	}
+	vc.siteHooks(st, key, instr, before)
 }
 
 // calleeKeyOf names the callee of a call instruction for site hooks ("append" etc. for builtins).
